@@ -1,1 +1,123 @@
-// placeholder
+// Kani harnesses mounted inside noodles-bgzf/src/io/writer/frame.rs (sees its private fns).
+#![allow(unused_imports, dead_code)]
+
+#[path = "/verif/harness/common.rs"]
+mod common;
+
+use std::io::{self, Write};
+
+use self::common::*;
+use super::*;
+
+// @verif prop=C01 id=O1.1/big tier=quick unwind=3 bound="block size 18+n+8 for symbolic n in 65500..=65530, i.e. both sides of the 65536-byte member limit" fns="write_frame,write_header"
+#[kani::proof]
+#[kani::unwind(3)]
+fn c01_frame_size_limit() {
+    let n: usize = kani::any();
+    kani::assume(n >= 65500 && n <= 65530);
+    let mut out = [0u8; 32];
+    let mut sink: &mut [u8] = &mut out[..];
+    // the header is written first; an oversized member must be rejected, not emitted with a wrapped BSIZE
+    let r = kind_of(write_header(&mut sink, 18 + n + 8));
+    if 18 + n + 8 > 65536 {
+        assert!(r == Err(io::ErrorKind::InvalidInput));
+    } else {
+        assert!(r.is_ok());
+        assert_eq!((out[16] as usize) | ((out[17] as usize) << 8), 18 + n + 8 - 1);
+        kani::cover!(n == 65510);
+    }
+}
+
+
+// ------------------------------------------------------------------------------------------------
+// C14 O14.1: write_frame against a nondeterministic sink (fault dimensions in separate harnesses)
+
+fn frame_bytes_ok(out: &[u8], cdata: &[u8; 2], crc: u32, isz: u32) {
+    assert_eq!(out.len(), 28);
+    assert!(out[0] == 31 && out[1] == 139 && out[2] == 8 && out[3] == 4 && out[12] == 66 && out[13] == 67);
+    assert!(out[16] == 27 && out[17] == 0);
+    assert!(out[18] == cdata[0] && out[19] == cdata[1]);
+    assert_eq!(u32::from_le_bytes([out[20], out[21], out[22], out[23]]), crc);
+    assert_eq!(u32::from_le_bytes([out[24], out[25], out[26], out[27]]), isz);
+}
+
+fn fail_case(k: u32) {
+    let cdata: [u8; 2] = kani::any();
+    let (crc, isz): (u32, u32) = kani::any();
+    let mut sink = FaultySink::<32>::new(Faults { fail_at: k, ..Faults::NONE });
+    let r = kind_of(write_frame(&mut sink, &cdata, crc, isz as usize));
+    if sink.failed {
+        assert!(r.is_err()); // never swallowed
+    } else {
+        assert!(r == Ok(28));
+        frame_bytes_ok(sink.written(), &cdata, crc, isz);
+    }
+    // a frame is 14 write_all calls (11 header, 1 cdata, 2 trailer): indices 0..=13 fail, later ones never trigger
+    assert_eq!(sink.failed, k <= 13);
+}
+
+macro_rules! fail_harness {
+    ($name:ident, $($k:expr),+) => {
+        #[kani::proof]
+        #[kani::unwind(3)]
+        fn $name() {
+            $( fail_case($k); )+
+        }
+    };
+}
+
+// @verif prop=C14 id=O14.1a/0-3 tier=quick harness=c14_write_frame_fail_at_0_3 unwind=3 bound="one frame with 2-byte symbolic cdata/crc/isize (14 sink calls); sink fails permanently at call 0,1,2,3 (one run each)" fns="write_frame,write_header,write_trailer,write_u8,write_u16_le,write_u32_le"
+fail_harness!(c14_write_frame_fail_at_0_3, 0, 1, 2, 3);
+// @verif prop=C14 id=O14.1a/4-7 tier=quick harness=c14_write_frame_fail_at_4_7 unwind=3 bound="same; sink fails at call 4,5,6,7" fns="write_frame"
+fail_harness!(c14_write_frame_fail_at_4_7, 4, 5, 6, 7);
+// @verif prop=C14 id=O14.1a/8-11 tier=quick harness=c14_write_frame_fail_at_8_11 unwind=3 bound="same; sink fails at call 8,9,10,11" fns="write_frame"
+fail_harness!(c14_write_frame_fail_at_8_11, 8, 9, 10, 11);
+// @verif prop=C14 id=O14.1a/12-15 tier=quick harness=c14_write_frame_fail_at_12_15 unwind=3 bound="same; sink fails at call 12,13 and 14,15 (= never reached)" fns="write_frame"
+fail_harness!(c14_write_frame_fail_at_12_15, 12, 13, 14, 15);
+
+fn short_case(k: u32) {
+    let cdata: [u8; 2] = kani::any();
+    let (crc, isz): (u32, u32) = kani::any();
+    let mut sink = FaultySink::<32>::new(Faults { short_at: k, ..Faults::NONE });
+    let r = kind_of(write_frame(&mut sink, &cdata, crc, isz as usize));
+    assert!(r == Ok(28));
+    frame_bytes_ok(sink.written(), &cdata, crc, isz); // byte-identical to the fault-free output
+}
+
+macro_rules! short_harness {
+    ($name:ident, $k:expr) => {
+        #[kani::proof]
+        #[kani::unwind(4)]
+        fn $name() {
+            short_case($k);
+        }
+    };
+}
+// @verif prop=C14 id=O14.1b/magic tier=quick harness=c14_write_frame_short_write_magic unwind=4 bound="same frame; sink call 0 (2-byte magic) accepts only 1 byte: output byte-identical" fns="write_frame,Write::write_all"
+short_harness!(c14_write_frame_short_write_magic, 0);
+// @verif prop=C14 id=O14.1b/cdata tier=quick harness=c14_write_frame_short_write_cdata unwind=4 bound="same frame; sink call 11 (cdata) accepts only 1 byte" fns="write_frame,Write::write_all"
+short_harness!(c14_write_frame_short_write_cdata, 11);
+// @verif prop=C14 id=O14.1b/isize tier=quick harness=c14_write_frame_short_write_isize unwind=4 bound="same frame; sink call 13 (ISIZE) accepts only 1 byte" fns="write_frame,Write::write_all"
+short_harness!(c14_write_frame_short_write_isize, 13);
+
+fn interrupt_case(k: u32) {
+    let cdata: [u8; 2] = kani::any();
+    let (crc, isz): (u32, u32) = kani::any();
+    let mut sink = FaultySink::<32>::new(Faults { interrupt_at: k, ..Faults::NONE });
+    let r = kind_of(write_frame(&mut sink, &cdata, crc, isz as usize));
+    assert!(r == Ok(28));
+    assert!(sink.interrupted);
+    frame_bytes_ok(sink.written(), &cdata, crc, isz);
+}
+
+macro_rules! interrupt_harness {
+    ($name:ident, $k:expr) => {
+        #[kani::proof]
+        #[kani::unwind(4)]
+        fn $name() {
+            interrupt_case($k);
+        }
+    };
+}
+// @verif prop=C14 id=O14.1c/11 tier=quick harness=c14_write_frame_interrupted_at_11 unwind=4 bound="same; Interrupted at call 11 (cdata)" fns="write_frame,Write::write_all"
+interrupt_harness!(c14_write_frame_interrupted_at_11, 11);
